@@ -1,3 +1,4 @@
 import Properties.C14
 import Properties.C01
 import Properties.C16
+import Properties.C04
